@@ -333,7 +333,7 @@ package lexer
 //@ lemma backrefMeaning(re *regexp.Regexp, input string, groups []string)
 //@   axiom
 //@   ensures foralls(s, uf("re_matches", "Bool", re, s) == uf("backref_matches", "Bool", input, groups, s))
-//@ func BackrefRegex [C07 C03]
+//@ func BackrefRegex [C07 C03 C04]
 //@   requires backrefCache != nil
 //@   ensures result1 == nil ==> result0 != nil && uf("re_anchored", "Bool", result0)
 //@   ensures result1 == nil ==> foralls(s, uf("re_matches", "Bool", result0, s) == uf("backref_matches", "Bool", input, groups, s))
